@@ -11,9 +11,52 @@ LEVEL = 'exploration'
 RULE = ('reference datetimes: every weekday, month ends, 02-29, year boundaries, ISO week 52/53/1 transitions (all days from 12-24 to 01-07 '
         'of years of each ISO shape), 23:59:59, plus seeded 1950..2090; x {today, tomorrow, yesterday, now, N days|weeks ago, in N '
         'days|weeks, N days from now (N in {1,2,7,30,365,random 1..5000}), next/last/this <weekday>, this/next/last week|month|year} in '
-        'en-us; today/tomorrow/yesterday in the other 8 cultures. non-trivial = one resolved entity; distinct = distinct (culture, query, reference).')
+        'en-us; today/tomorrow/yesterday in the other 8 cultures; in es-es, fr-fr, pt-br, it-it, de-de, nl-nl, zh-cn the translations of the same families '
+        '(N days/weeks ago / in N days/weeks, this/next/last week|month|year, next/last/this <weekday>) restricted to the phrasings in CULT_REL, i.e. those '
+        'each culture resolves by the English statement at all (the others - e.g. es "hace N días", fr "dans N jours", it "N giorni fa" - are outside the statement, '
+        'which is worded for English, and are not driven). non-trivial = one resolved entity; distinct = distinct (culture, query, reference).')
 EXHAUSTIVE = False
 JOB_TIMEOUT = 1500
+
+
+WD = {
+    'es-es': ['lunes', 'martes', 'miércoles', 'jueves', 'viernes', 'sábado', 'domingo'],
+    'fr-fr': ['lundi', 'mardi', 'mercredi', 'jeudi', 'vendredi', 'samedi', 'dimanche'],
+    'pt-br': ['segunda-feira', 'terça-feira', 'quarta-feira', 'quinta-feira', 'sexta-feira', 'sábado', 'domingo'],
+    'it-it': ['lunedì', 'martedì', 'mercoledì', 'giovedì', 'venerdì', 'sabato', 'domenica'],
+    'de-de': ['Montag', 'Dienstag', 'Mittwoch', 'Donnerstag', 'Freitag', 'Samstag', 'Sonntag'],
+    'nl-nl': ['maandag', 'dinsdag', 'woensdag', 'donderdag', 'vrijdag', 'zaterdag', 'zondag'],
+    'zh-cn': ['周一', '周二', '周三', '周四', '周五', '周六', '周日'],
+}
+# culture -> family -> phrasings ({n} = N >= 2, {w} = weekday name)
+CULT_REL = {
+    'es-es': {'in days': ['en {n} días'], 'in weeks': ['en {n} semanas'], 'this week': ['esta semana'], 'next week': ['próxima semana', 'la próxima semana'],
+              'this month': ['este mes'], 'next month': ['próximo mes', 'el próximo mes'], 'this year': ['este año'], 'next year': ['próximo año', 'el próximo año'],
+              'next wd': ['próximo {w}'], 'last wd': ['{w} pasado'], 'this wd': ['este {w}']},
+    'fr-fr': {'this week': ['cette semaine'], 'next week': ['la semaine prochaine', 'semaine prochaine'], 'last week': ['la semaine dernière', 'semaine dernière'],
+              'this month': ['ce mois'], 'next wd': ['{w} prochain'], 'last wd': ['{w} dernier']},
+    'pt-br': {'days ago': ['{n} dias atrás'], 'in days': ['em {n} dias'], 'weeks ago': ['{n} semanas atrás'], 'in weeks': ['em {n} semanas'],
+              'this week': ['esta semana'], 'next week': ['próxima semana'], 'this year': ['este ano'], 'next year': ['próximo ano'],
+              'next wd': ['próxima {w}', 'próximo {w}'], 'this wd': ['esta {w}', 'este {w}']},
+    'it-it': {'in days': ['tra {n} giorni', 'fra {n} giorni'], 'in weeks': ['tra {n} settimane', 'fra {n} settimane'],
+              'this week': ['questa settimana'], 'next week': ['la prossima settimana'], 'last week': ['la settimana scorsa', 'settimana scorsa'],
+              'this month': ['questo mese'], 'next month': ['il prossimo mese', 'prossimo mese'],
+              'this year': ["quest'anno"], 'next year': ['il prossimo anno', 'prossimo anno'],
+              'next wd': ['{w} prossimo', 'prossimo {w}'], 'last wd': ['{w} scorso', 'scorso {w}'], 'this wd': ['questo {w}']},
+    'de-de': {'in days': ['in {n} Tagen'], 'in weeks': ['in {n} Wochen'], 'this week': ['diese Woche'], 'next week': ['nächste Woche'], 'last week': ['letzte Woche'],
+              'this month': ['diesen Monat', 'dieser Monat'], 'next month': ['nächsten Monat', 'nächster Monat'], 'last month': ['letzten Monat', 'letzter Monat'],
+              'this year': ['dieses Jahr'], 'next year': ['nächstes Jahr'], 'last year': ['letztes Jahr'],
+              'next wd': ['nächsten {w}', 'nächster {w}'], 'last wd': ['letzten {w}', 'letzter {w}'], 'this wd': ['diesen {w}']},
+    'nl-nl': {'days ago': ['{n} dagen geleden'], 'in days': ['over {n} dagen'], 'weeks ago': ['{n} weken geleden'], 'in weeks': ['over {n} weken'],
+              'this week': ['deze week'], 'next week': ['volgende week', 'komende week'], 'last week': ['vorige week', 'afgelopen week'],
+              'this month': ['deze maand'], 'next month': ['volgende maand'], 'last month': ['vorige maand'],
+              'this year': ['dit jaar'], 'next year': ['volgend jaar'], 'last year': ['vorig jaar'],
+              'next wd': ['volgende {w}', 'komende {w}'], 'last wd': ['vorige {w}', 'afgelopen {w}'], 'this wd': ['deze {w}']},
+    'zh-cn': {'days ago': ['{n}天前'], 'in days': ['{n}天后'], 'weeks ago': ['{n}周前'], 'in weeks': ['{n}周后'],
+              'this week': ['这周', '本周'], 'next week': ['下周'], 'last week': ['上周'], 'this month': ['这个月', '本月'], 'next month': ['下个月', '下月'],
+              'last month': ['上个月', '上月'], 'next year': ['明年'], 'last year': ['去年'],
+              'next wd': ['下{w}'], 'last wd': ['上{w}'], 'this wd': ['这{w}', '本{w}']},
+}
 
 
 def monday(d):
@@ -135,6 +178,18 @@ def gen(ctx):
         for R in refs[:: (4 if ctx.tier == 'quick' else 2)]:
             for w, off in c['rel'].items():
                 yield cu, w, R, {0: 'today', 1: 'tomorrow', -1: 'yesterday'}[off], None
+    for cu, fam in CULT_REL.items():
+        for R in refs[:: (3 if ctx.tier == 'quick' else 1)]:
+            for kind, tpls in fam.items():
+                for t in tpls:
+                    if '{n}' in t:
+                        for N in (2, 7, 30, 365, r.randrange(2, 5001)):
+                            yield cu, t.format(n=N), R, kind, N
+                    elif '{w}' in t:
+                        for i, w in enumerate(WD[cu]):
+                            yield cu, t.format(w=w), R, kind, i
+                    else:
+                        yield cu, t, R, kind, None
 
 
 def plan(tier, seed):
